@@ -24,6 +24,7 @@ type Roles struct {
 	TwoDen  chain.Key   // account that also holds "aaa" coins
 	Poor    []chain.Key // balances 0, fee-1, fee, fee+1
 	Fresh   []chain.Key // keys without an account
+	Foreign, ForeignK chain.Key // genesis account at Foreign.Addr whose STORED public key is ForeignK's (nothing validates that a stored key hashes to its address)
 	Owner   chain.Key
 	Multi   Multi       // funded 2-of-2 multisig account
 	MultiIn Multi       // same keys, signatures placed in the wrong order
@@ -82,6 +83,7 @@ func NewChain(o Options) (*Lab, *Roles) {
 	}
 	r.Deep = Multi{Members: deep}
 	r.Multis = []Multi{r.Multi}
+	r.Foreign, r.ForeignK = chain.KeyN(4390), chain.KeyN(4391)
 	for n := 3; n <= 4; n++ {
 		var ms []Signer
 		for i := 0; i < n; i++ {
@@ -97,6 +99,8 @@ func NewChain(o Options) (*Lab, *Roles) {
 		}
 		gs.Nodes.Params.UnstakingTime = UnstakingTime
 		poor := []int64{0, Fee - 1, Fee, Fee + 1}
+		gs.Auth.Accounts = append(gs.Auth.Accounts, &auth.BaseAccount{Address: r.Foreign.Addr, Coins: upokt(500000000000), PubKey: r.ForeignK.Pub})
+		gs.Auth.Accounts = append(gs.Auth.Accounts, &auth.BaseAccount{Address: r.ForeignK.Addr, Coins: upokt(400000000000), PubKey: r.ForeignK.Pub}) // the other key is a funded account of its own (it can pay a fee)
 		for i, k := range r.Poor {
 			c := upokt(poor[i])
 			if poor[i] == 0 {
